@@ -62,8 +62,12 @@ def gen(rng, tier):
             ds = nn.rand_dataset(rng, max_rows=7, max_points=4, ties=False)
         if acc:
             ds["utility"] = "accuracy"
-            ds["features"] = [[rng.randint(-8, 8) / 2.0, rng.randint(-8, 8) / 2.0] for _ in range(ds["n_train"])]
-            ds["features_test"] = [[rng.randint(-8, 8) / 2.0 + 0.125, rng.randint(-8, 8) / 4.0 + 0.0625] for _ in range(ds["n_test"])]
+            while True:     # real features: pairwise DISTINCT distances to every validation point (checked exactly)
+                ds["features"] = [[rng.randint(-8, 8) / 2.0, rng.randint(-8, 8) / 2.0] for _ in range(ds["n_train"])]
+                ds["features_test"] = [[rng.randint(-8, 8) / 2.0 + 0.125, rng.randint(-8, 8) / 4.0 + 0.0625] for _ in range(ds["n_test"])]
+                if all(len(set((a[0] - t[0]) ** 2 + (a[1] - t[1]) ** 2 for a in ds["features"])) == ds["n_train"]
+                       for t in ds["features_test"]):
+                    break
         if ds["grouping"]["kind"] == "fork":
             ds["grouping"] = {"kind": "grouped", "ids": ds["owner"]}
         variants = []
